@@ -139,28 +139,38 @@ func zzC13ClientList(doc yobj) (m yobj, key string) {
 	return doc, "clients"
 }
 
+// zzC13ElemIdx returns the index of a client-list pseudo section (cl0, cl1,
+// cl2), or -1.
+func zzC13ElemIdx(name string) (i int) {
+	if len(name) == 3 && name[:2] == "cl" && name[2] >= '0' && name[2] <= '9' {
+		return int(name[2] - '0')
+	}
+
+	return -1
+}
+
 // zzC13Place resolves an abstract key to (container, name); for the
 // pseudo-sections cl0 / fl0 the container is the first element of the list.
 func zzC13Place(doc yobj, key string) (m yobj, name string, ok bool) {
 	parts := strings.Split(key, ".")
-	switch parts[0] {
-	case "cl0", "fl0":
+	if idx := zzC13ElemIdx(parts[0]); idx >= 0 || parts[0] == "fl0" {
 		var l []any
-		if parts[0] == "cl0" {
+		if idx >= 0 {
 			c, k := zzC13ClientList(doc)
 			l, _ = c[k].([]any)
 		} else {
+			idx = 0
 			l, _ = doc["filters"].([]any)
 		}
-		if len(l) == 0 {
+		if len(l) <= idx || len(parts) == 1 {
 			return nil, "", false
 		}
-		if len(parts) == 1 {
-			return nil, "", false
-		}
-		m, ok = l[0].(yobj)
+		m, ok = l[idx].(yobj)
 
 		return m, parts[1], ok
+	}
+
+	switch parts[0] {
 	case "dns":
 		if len(parts) > 1 {
 			parts[0] = zzC13DNSName(doc)
@@ -180,15 +190,17 @@ func zzC13Place(doc yobj, key string) (m yobj, name string, ok bool) {
 
 // zzC13Get returns the value at key.
 func zzC13Get(doc yobj, key string) (v any, ok bool) {
-	switch key {
-	case "cl0":
+	if idx := zzC13ElemIdx(key); idx >= 0 {
 		c, k := zzC13ClientList(doc)
 		l, _ := c[k].([]any)
-		if len(l) == 0 {
+		if len(l) <= idx {
 			return nil, false
 		}
 
-		return l[0], true
+		return l[idx], true
+	}
+
+	switch key {
 	case "fl0":
 		l, _ := doc["filters"].([]any)
 		if len(l) == 0 {
@@ -366,7 +378,11 @@ func TestZZVerifC13Baselines(t *testing.T) {
 // ------------------------------------------------------------------ conc
 
 // zzC13DevValue returns the concrete value of a deviation kind.
-func zzC13DevValue(kind string, old any) (v any, del bool) {
+func zzC13DevValue(key, kind string, old any) (v any, del bool) {
+	if strings.HasPrefix(kind, "perm") || kind == "recs" {
+		return zzC13Records(key, kind), false
+	}
+
 	switch kind {
 	case "absent":
 		return nil, true
@@ -434,8 +450,16 @@ func zzC13Conc(v int, devs []zzC13Dev) (doc yobj, body []byte, ok bool, err erro
 	}
 
 	for _, d := range devs {
+		if d.K == "@clients" {
+			if !zzC13Family(doc, v, d.D) {
+				return doc, nil, false, nil
+			}
+
+			continue
+		}
+
 		old, _ := zzC13Get(doc, d.K)
-		val, del := zzC13DevValue(d.D, old)
+		val, del := zzC13DevValue(d.K, d.D, old)
 		if !zzC13Set(doc, d.K, val, del) {
 			return doc, nil, false, nil
 		}
@@ -453,6 +477,120 @@ func zzC13Conc(v int, devs []zzC13Dev) (doc yobj, body []byte, ok bool, err erro
 	}
 
 	return doc, body, true, nil
+}
+
+// zzC13Records returns the lists of records with elements of different
+// shapes (Perms / RecsLit of Migrate.tla).
+func zzC13Records(key, kind string) (l []any) {
+	fa := yobj{"url": "https://a.example/f.txt", "name": "A", "enabled": true, "id": 1}
+	fb := yobj{"url": zzC13FilePath, "name": "B", "enabled": false, "id": 2}
+	fc := yobj{"name": "C", "enabled": true, "id": 3}
+	switch kind {
+	case "perm1":
+		return []any{fa, fb, fc}
+	case "perm2":
+		return []any{fa, fc, fb}
+	case "perm3":
+		return []any{fb, fa, fc}
+	case "perm4":
+		return []any{fb, fc, fa}
+	case "perm5":
+		return []any{fc, fa, fb}
+	case "perm6":
+		return []any{fc, fb, fa}
+	}
+
+	switch key {
+	case "users":
+		return []any{yobj{"name": "u1", "password": "p1"}, yobj{"name": "u2"},
+			yobj{"name": "u3", "password": "p3", "zz_extra": "zz"}}
+	case "whitelist_filters":
+		return []any{fb, fc, fa}
+	default:
+		return []any{yobj{"domain": "a.example", "answer": "1.2.3.4"}, yobj{"domain": "b.example"},
+			yobj{"domain": "*.c.example", "answer": "a.example", "zz_extra": "zz"}}
+	}
+}
+
+// zzC13Clone copies a parsed YAML value.
+func zzC13Clone(v any) (c any) {
+	switch v := v.(type) {
+	case yobj:
+		m := make(yobj, len(v))
+		for k, e := range v {
+			m[k] = zzC13Clone(e)
+		}
+
+		return m
+	case []any:
+		l := make([]any, len(v))
+		for i := range v {
+			l[i] = zzC13Clone(v[i])
+		}
+
+		return l
+	default:
+		return v
+	}
+}
+
+// zzC13Family replaces the client list of the golden document by two or
+// three clients of different shapes (FamDoc of Migrate.tla): code is a comma
+// separated list of "bs" flags, b = blocked services present, s = safe search
+// present, each in the form of schema v.
+func zzC13Family(doc yobj, v int, code string) (ok bool) {
+	c, k := zzC13ClientList(doc)
+	l, _ := c[k].([]any)
+	if len(l) == 0 {
+		return false
+	}
+	golden, isObj := l[0].(yobj)
+	if !isObj {
+		return false
+	}
+
+	var elems []any
+	for i, f := range strings.Split(code, ",") {
+		if len(f) != 2 {
+			return false
+		}
+
+		e := zzC13Clone(golden).(yobj)
+		e["name"] = "c" + strconv.Itoa(i)
+		addr := "10.0.0." + strconv.Itoa(i+1)
+		if v < 6 {
+			e["ip"] = addr
+		} else {
+			e["ids"] = []any{addr}
+		}
+
+		delete(e, "blocked_services")
+		if f[0] == 'b' {
+			if v < 22 {
+				e["blocked_services"] = []any{"500px"}
+			} else {
+				e["blocked_services"] = yobj{"schedule": yobj{"time_zone": "Local"}, "ids": []any{"500px"}}
+			}
+		}
+
+		if v < 19 {
+			delete(e, "safesearch_enabled")
+			if f[1] == 's' {
+				e["safesearch_enabled"] = true
+			}
+		} else {
+			delete(e, "safe_search")
+			if f[1] == 's' {
+				e["safe_search"] = yobj{"enabled": true, "bing": true, "duckduckgo": true, "google": true,
+					"pixabay": true, "yandex": true, "youtube": true}
+			}
+		}
+
+		elems = append(elems, e)
+	}
+	c[k] = elems
+
+	return true
 }
 
 // zzC13ConcDoc renders the document-level shapes: files that hold no mapping
@@ -826,24 +964,31 @@ func zzC13Match(final yobj, shape map[string]zzC13TV, in yobj) (diff string) {
 			return walk(act.(yobj), key+".")
 		case "cl":
 			l := act.([]any)
-			c0, has := shape["cl0"]
-			if !has || c0.T == "absent" {
-				if len(l) != 0 {
-					return key + ": client list not empty"
+			n := 0
+			for n < 3 {
+				if c, has := shape["cl"+strconv.Itoa(n)]; !has || c.T == "absent" {
+					break
 				}
+				n++
+			}
+			if len(l) != n {
+				return fmt.Sprintf("%s: %d clients, spec says %d", key, len(l), n)
+			}
+			for i := 0; i < n; i++ {
+				name := "cl" + strconv.Itoa(i)
+				ci := shape[name]
+				seen[name] = true
+				if el, ok := l[i].(yobj); ok && ci.V == "sec" {
+					if d := walk(el, name+"."); d != "" {
+						return d
+					}
 
-				return ""
-			}
-			if len(l) != 1 {
-				return fmt.Sprintf("%s: %d clients, spec tracks exactly one", key, len(l))
-			}
-			seen["cl0"] = true
-			if el, ok := l[0].(yobj); ok && c0.V == "sec" {
-				return walk(el, "cl0.")
-			}
-			ev, err := zzC13Eval(c0.V, in)
-			if err != nil || c0.V == "sec" || !zzC13Like(ev, l[0]) {
-				return fmt.Sprintf("cl0: %v, spec says %s (%v)", l[0], c0.V, err)
+					continue
+				}
+				ev, err := zzC13Eval(ci.V, in)
+				if err != nil || ci.V == "sec" || !zzC13Like(ev, l[i]) {
+					return fmt.Sprintf("%s: %v, spec says %s (%v)", name, l[i], ci.V, err)
+				}
 			}
 
 			return ""
@@ -892,8 +1037,8 @@ func zzC13Match(final yobj, shape map[string]zzC13TV, in yobj) (diff string) {
 		if shape[k].T == "absent" || seen[k] || strings.HasPrefix(k, "fl0") {
 			continue
 		}
-		if strings.HasPrefix(k, "cl0") {
-			if c0 := shape["cl0"]; c0.V != "sec" {
+		if len(k) > 3 && zzC13ElemIdx(k[:3]) >= 0 {
+			if ce := shape[k[:3]]; ce.V != "sec" {
 				continue
 			}
 		}
@@ -1024,7 +1169,7 @@ func zzC13Check(vec *zzC13Vec, base map[string]zzC13TV) (out zzC13Out) {
 		first := ""
 		for i, diffShape := range vec.Oks {
 			shape := diffShape
-			if vec.Kind == "vec" {
+			if vec.Kind == "vec" || vec.Kind == "fam" {
 				shape = make(map[string]zzC13TV, len(base)+len(diffShape))
 				for k, c := range base {
 					shape[k] = c
@@ -1158,6 +1303,27 @@ func TestZZVerifC13Replay(t *testing.T) {
 		}
 	}
 	w.put(map[string]any{"kind": "summary", "n": n, "paths": paths})
+}
+
+// TestZZVerifC13Render writes the concrete document of every vector it is
+// given, for the loader half of the property (package home).
+func TestZZVerifC13Render(t *testing.T) {
+	w := zzNewWriter(t, "VERIF_OUT")
+	defer w.close()
+
+	zzReadNDJSON(t, "VERIF_IN", func(line []byte) {
+		v := &zzC13Vec{}
+		if err := json.Unmarshal(line, v); err != nil {
+			t.Fatalf("bad vector: %v", err)
+		}
+
+		_, body, ok, err := zzC13Conc(v.V, v.Devs)
+		if err != nil || !ok {
+			return
+		}
+
+		w.put(map[string]any{"id": v.ID, "v": v.V, "devs": v.Devs, "body": string(body)})
+	})
 }
 
 // ------------------------------------------------------------- direction B
